@@ -163,10 +163,15 @@ func twoSided(which int, inputs [][]int, extraSteps, maxRedundant int) func(x *m
 
 // concurrent: thread L drains the left side, thread R the right side; every interleaving at the
 // library's mutex operations and at the scheduling points inside the shared source.
-func concurrent(which int, data []int, p pred) func(x *mc.X) {
+func concurrent(which int, inputs [][]int) func(x *mc.X) {
 	return func(x *mc.X) {
 		name := twoNames[which]
 		x.Tag(name)
+		data := pickInput(x, inputs)
+		p := preds[0]
+		if which > 0 {
+			p = preds[x.Choose(2, "pred")]
+		}
 		wl, wr := twoRefs(which, p, data)
 		e := newEnv(x)
 		s := newSrc(e, data)
